@@ -2,3 +2,13 @@
 //! module without changing any visibility in the repository.
 #![allow(dead_code, unused_imports)]
 use super::*;
+
+pub fn next_partition_id(t: &Topic) -> u32 {
+    t.get_next_partition_id()
+}
+pub fn partition_id_by_key(t: &Topic, key: &[u8]) -> u32 {
+    t.calculate_partition_id_by_messages_key_hash(key)
+}
+pub fn cache_integrity_check(cache: &[Arc<RetainedMessage>]) -> bool {
+    Topic::cache_integrity_check(cache)
+}
